@@ -137,6 +137,20 @@ def _pipeline_at(core, cg, STOP, site, need_both=True):
     if first and all(o.kind == 'call' and last_seg(o.term.get('callee') or '') in ('new', 'with_capacity') and 'alloc::vec::Vec' in norm(o.term.get('callee') or '')
                      for h, o in first):
         return bridge_pipeline_loop(core, cg, STOP, first, need_both)
+    # nothing reorders, drops or adds to the batch between its collection and its serialisation (the order of a batch is the order in
+    # which the typed core returns the requests)
+    batch_src = origins(f, t['args'][0])
+    touched = []
+    for b2, t2 in f.calls():
+        c2 = norm(t2.get('callee') or '')
+        if b2 != bb and t2.get('args') and (c2.startswith('alloc::vec::Vec::') or c2.startswith('alloc::slice::') or c2.startswith('core::slice::')) and \
+                (last_seg(c2) in VEC_MUTATORS or last_seg(c2).startswith('sort') or last_seg(c2) in ('push', 'reverse', 'swap', 'fill', 'select_nth_unstable')):
+            src2 = origins(f, t2['args'][0], extra_identity=[('core::ops::deref::DerefMut::deref_mut', 0)])
+            if batch_src and src2 and set((o.kind, getattr(o, 'bb', None)) for o in src2) == set((o.kind, getattr(o, 'bb', None)) for o in batch_src) and \
+                    all(o.kind == 'call' for o in src2):
+                touched.append(last_seg(c2))
+    if touched and not (first and all(o.kind == 'call' and last_seg(o.term.get('callee') or '') in ('new', 'with_capacity') for h, o in first)):
+        return False, 'the collected batch is changed before it is serialised (%s)' % sorted(set(touched)), set()
     cur = [(f, t['args'][0])]
     chain = []
     clo = None
